@@ -54,6 +54,8 @@ func c15Templates() []c15tmpl {
 		{"(let [x @A] (if x @A x))", L(sym("let"), Vc(sym("x"), A), L(sym("if"), sym("x"), A, sym("x"))), false},
 		{"`(a ~@A ~@ @A)", L(sym("quasiquote"), L(sym("a"), L(sym("unquote"), A), L(sym("splice-unquote"), A))), false},
 		{"^@A [1]", L(sym("with-meta"), Vc(I(1)), A), false},
+		{";; @A 5\n(list @A \"@A\")", L(sym("list"), A, S("@A")), false},
+		{";; @Z 10\n;; $Id: job.lisp 1234 $\n(list @Z @A)", L(sym("list"), Z, A), false},
 		{"(list @A @B)", L(sym("list"), A, B), true},
 		{"{:x @A :y [@B]}", mp(kw("x"), A, kw("y"), Vc(B)), true},
 		{"(@B @A @B)", L(B, A, B), true},
@@ -68,7 +70,7 @@ func c15Values() []V {
 	return []V{
 		model.Nil, model.Bool(true), model.Bool(false), I(0), I(-1), I(math.MaxInt64), I(math.MinInt64),
 		S(""), S("a"), S(`"`), S(`\`), S(`\n`), S("\n"), S("\t"), S(`a\`), S("¬"), S(`{"a":1}`), S(`{"a¬":1}`),
-		S("{\"a\":\n 1}"), S("{\"\n}"), S("x\ny"), S(";; $a 1"), S("\n;; $a 1\n"), S("$ab"), S("$a"), S("("), S(";x"), S("aʞb"), S(" x "), S("😀"),
+		S("{\"a\":\n 1}"), S("{\"\n}"), S("x\ny"), S("{\"a\":1}\n"), S("\n{\"a\":1}"), S(" {\"a\":1} "), S(";; $a 1"), S("\n;; $a 1\n"), S("$ab"), S("$a"), S("("), S(";x"), S("aʞb"), S(" x "), S("😀"),
 		S("a\r"), S("\r\n"),
 		kw("k"), kw("a/b"), sym("a"), sym("a-1"), sym("&"),
 		L(), L(I(1), S("s"), kw("k")), L(sym("+"), I(1), I(2)), L(L(sym("a"))),
@@ -285,11 +287,56 @@ func init() {
 				}
 			},
 		}
+		// sources read with an EMPTY placeholder map: nothing of the source (its own leading
+		// ';; $...' comment lines included) may be taken for a preamble
+		emptySrcs := []struct {
+			src string
+			ast V
+		}{
+			{"(list 1)", model.List(sym("list"), model.Int(1))},
+			{";; $LIMIT 10\n(list $LIMIT \"$LIMIT\")", model.List(sym("list"), model.Nil, model.Str("$LIMIT"))},
+			{";; $Id: job.lisp 1234 2024-01-01 $\n(f 1)", model.List(sym("f"), model.Int(1))},
+			{";; plain comment\n$a", model.Nil},
+			{"\n;; $a 5\n[$a]", model.Vec(model.Nil)},
+			{";; $a\n7", model.Int(7)},
+		}
+		empty := &vf.Family{
+			Name: "empty-map", InProc: true,
+			Bounds:   fmt.Sprintf("%d sources (some starting with their own ';; $...' comment lines) transported with an empty and with a nil placeholder map", len(emptySrcs)),
+			N:        func(string) int64 { return int64(len(emptySrcs)) * 2 },
+			Describe: func(i int64) string { return fmt.Sprintf("%q with %s map", emptySrcs[i/2].src, []string{"an empty", "a nil"}[i%2]) },
+			Run: func(i int64, r *vf.Rec) {
+				c := emptySrcs[i/2]
+				m := map[string]types.MalType{}
+				if i%2 == 1 {
+					m = nil
+				}
+				r.NT()
+				text, err := lisp.AddPreamble(c.src, m)
+				if err != nil {
+					r.Violation("AddPreamble fails with an empty map", err.Error())
+					return
+				}
+				var back types.MalType
+				if p := lx.Guard(func() { back, err = lisp.READWithPreamble(text, nil, nil) }); p != nil {
+					r.Violation("READWithPreamble panics: "+panicSig(p), fmt.Sprintf("text %q", text))
+					return
+				}
+				r.Exec(1)
+				if err != nil {
+					r.Violation("source with an empty placeholder map does not survive the preamble transport", fmt.Sprintf("text %q: %v", text, err))
+					return
+				}
+				if got := model.FromImpl(back); !model.Identical(got, c.ast) {
+					r.Violation("source with an empty placeholder map does not survive the preamble transport", fmt.Sprintf("text %q\nexpected %s\ngot      %s", text, c.ast.String(), got.String()))
+				}
+			},
+		}
 		return &vf.Check{
 			ID: "C15", Level: "model_checking",
 			Rule: "every (template, name pair, value assignment) of the bounded space: the expected AST is the template with placeholder leaves replaced by the values (computed on the model ADT, no second reader); READWithPreamble(AddPreamble(src, m)) for every preamble line order, and Read_str(src, m), must be identical to it; every case is non-trivial",
-			Assumptions: []string{"names over letters, digits, '-' and '_'; values are data values that C06 shows readable (NUL excluded: C06 known finding)", "source templates do not start with a ';; $' line of their own"},
-			Families: []*vf.Family{fam},
+			Assumptions: []string{"names over letters, digits, '-' and '_'; values are data values that C06 shows readable (NUL excluded: C06 known finding)", "a source may start with its own ';; $...' comment lines: AddPreamble separates them from the preamble by a blank line"},
+			Families: []*vf.Family{fam, empty},
 		}
 	})
 }
